@@ -14,6 +14,14 @@ Definition col_left (x0 bsx : Q) (widths : list Q) (j : nat) : Q :=
 Definition col_right (x0 bsx : Q) (widths : list Q) (j : nat) : Q :=
   col_left x0 bsx widths j + nth j widths 0.
 
+(* direction: rtl: the columns run from the right edge xr of the content box,
+   column 0 is the rightmost one: column j has its left edge at
+   xr - (j+1)*spacing - sum of the widths of columns 0..j *)
+Definition col_left_rtl (xr bsx : Q) (widths : list Q) (j : nat) : Q :=
+  xr - inject_Z (Z.of_nat (S j)) * bsx - sumQ (firstn (S j) widths).
+Definition col_right_rtl (xr bsx : Q) (widths : list Q) (j : nat) : Q :=
+  col_left_rtl xr bsx widths j + nth j widths 0.
+
 (* rows: the same vertically; y0 is where the first row starts (the spacing
    above it already added) *)
 Definition row_top (y0 bsy : Q) (heights : list Q) (k : nat) : Q :=
